@@ -48,6 +48,9 @@ BEH_SMALL = [("nop",), ("emit", 0, 1, False), ("emit", 1, 2, False), ("gen", 1, 
 BEH_CRASH = [("nop",), ("gen", 1, 0), ("gen", 0, 1), ("genside", 1), ("crash", True), ("crash", False),
              ("emit", 1, 1, True), ("emit", 0, 1, False), ("cancel", 1)]
 BEH_BULK = [("nop",), ("bulk", 40), ("bulkmix", 40), ("cancel", 0), ("emit", 1, 1, True), ("gen", 1, 0)]
+# no cancel / crash behaviours: they act on harness-held objects and entity state, which reset() does not rebuild
+BEH_RESET = [("nop",), ("emit", 0, 1, False), ("emit", 1, 2, False), ("gen", 1, 0), ("genside", 1),
+             ("emit", 1, 1, True), ("emitrev", 1), ("past2",), ("genfut", 1)]
 BEH_FUT = [("nop",), ("genfut", 0), ("genfut", 1), ("genfut", 2), ("emit", 1, 1, True), ("emit", 2, 1, True),
            ("emit", 1, 1, False), ("gen", 1, 1), ("cancel", 1)]
 KINDS = ["plain", "daemon", "cancelled"]
@@ -185,6 +188,13 @@ class Ctx:
         self.sim_clock = None
         self.proc_pending_at_delivery = []
 
+    def reset_for_rerun(self):
+        """control.reset() was called: only the pre-run events come back (as fresh copies carrying the
+        same metadata); everything observed so far belongs to the abandoned run."""
+        self.reg = {s: r for s, r in self.reg.items() if r["pre"]}
+        self.deliveries, self.clock_obs, self.resumes, self.toggles = [], [], [], []
+        self.procs, self.futs, self.bad_values, self.proc_due = {}, [], [], {}
+
     def mk(self, t_ns, target, beh, daemon=False, by=None):
         s = self.seq
         self.seq += 1
@@ -250,6 +260,23 @@ def build_and_run(program, style, mode):
     if attach:
         sim.control  # noqa: B018  (selects the instrumented loop)
     c.end_ns = end_ns
+    reset_k = mode[4] if len(mode) > 4 else None
+    if reset_k is not None:
+        # run (to completion when reset_k < 0, else pause after reset_k deliveries), control.reset(), run again:
+        # the second run is judged by the same oracle as a first run
+        ctl = sim.control
+        if reset_k < 0:
+            sim.run()
+        else:
+            ctl.pause()
+            sim.run()
+            if reset_k > 0 and ctl.is_paused:
+                ctl.step(reset_k)
+        c.first_run = list(c.deliveries)
+        ctl.reset()
+        c.reset_for_rerun()
+        c.summary = sim.run()
+        return c
     if inject is None:
         c.summary = sim.run()
         return c
@@ -486,6 +513,8 @@ def main(tier, seed, only=None):
                       for sd in ((0.1, 0.7), (0.3, 0.6), (0.0, 0.5), (1.0, 0.1), (0.2, 0.1))]))
         fams.append(("p3-bulk", 3, BEH_BULK, (0, 1), False, ["list"], [(None, False), (3, True)]))
         fams.append(("p3-futures", 3, BEH_FUT, (0, 1), False, ["list"], [(None, False), (None, True), (3, False)]))
+        fams.append(("p2-reset-rerun", 2, BEH_RESET, (0, 1, 2), False, ["list"],
+                     [(e, True, None, None, k) for e in (None, 2) for k in (-1, 0, 1, 2)]))
     else:
         fams.append(("p1-full", 1, BEH_FULL, (0, 1, 2, 3), True, STYLES, MODES))
         fams.append(("p2-full-2targets", 2, BEH_FULL, (0, 1, 2), True, STYLES, MODES))
@@ -499,6 +528,8 @@ def main(tier, seed, only=None):
                       for sd in ((0.1, 0.7), (0.3, 0.6), (0.0, 0.5), (1.0, 0.1), (0.2, 0.1), (0.7, 0.1), (0.1, 0.2))]))
         fams.append(("p3-bulk", 3, BEH_BULK + [("bulk", 31), ("bulk", 33), ("bulkmix", 64)], (0, 1, 2), False, ["list", "reversed"], MODES))
         fams.append(("p3-futures", 3, BEH_FUT, (0, 1, 2), True, ["list", "reversed"], MODES))
+        fams.append(("p3-reset-rerun", 3, BEH_RESET, (0, 1, 2), False, ["list", "separate"],
+                     [(e, True, None, None, k) for e in (None, 2) for k in (-1, 0, 1, 2, 3)]))
     for f in fams:
         if only and f[0] not in only:
             continue
